@@ -25,6 +25,7 @@ REQUIRED = {
         'extrapolation-checked': 1000,
         'integrals-vs-area': 10000,
         'additivity-triples': 5000,
+        'integer-limits': 500,
         'class:below-below': 100, 'class:above-above': 100, 'class:below-above': 100, 'class:inside-inside': 100,
         'class:below-inside': 100, 'class:inside-above': 100, 'class:reversed': 2000, 'class:equal-limits': 100,
     }
@@ -92,6 +93,10 @@ def check_set(ctx, rng, params, npairs):
         a, b, c = draw_limit(rng, knots), draw_limit(rng, knots), draw_limit(rng, knots)
         if rng.random() < 0.05:
             b = a
+        if rng.random() < 0.1:
+            # whole-number limits handed over as Python ints
+            a, b, c = int(round(a)), int(round(b)), int(round(c))
+            rec.hit('integer-limits')
         rec.case()
         ra, rb = region(a, lo, hi), region(b, lo, hi)
         cls = '-'.join(sorted([ra, rb], key=['below', 'inside', 'above'].index))
